@@ -923,6 +923,16 @@ class STIXObjectProperty(Property):
                 "containing objects of a different spec version.",
             )
 
+        if isinstance(parsed_obj, _STIXBase) and \
+                '_STIXBase20' in get_class_hierarchy_names(parsed_obj) and \
+                '_Observable' in get_class_hierarchy_names(parsed_obj):
+            # A STIX 2.0 cyber observable (it has no id): such objects exist
+            # only inside the "objects" of an observed-data object.
+            raise ValueError(
+                "This property may not contain a STIX 2.0 cyber observable "
+                "object; it belongs in an observed-data object.",
+            )
+
         if isinstance(parsed_obj, _STIXBase):
             has_custom = parsed_obj.has_custom
         else:
